@@ -182,9 +182,13 @@ Emit == pc = "updated" =>
    PrintT("OBS " \o ToJson([tuning |-> tuning, g |-> g, stack |-> stack, hist |-> hist]))
 
 \* ---- named constant values for cfg files ---------------------------------
-KindSetsQuick    == {<<"azel", "radar", "rngaz", "elrr">>, <<"radar", "az", "rng", "elaz">>}
-KindSetsThorough == KindSetsQuick \cup {<<"azel", "azel", "radar", "radar">>, <<"rngaz", "elaz", "azel", "rng">>,
-                                        <<"az", "az", "elrr", "radar">>}
+\* the driver gives "azel", "elaz", "az" the sensor type Optical and the others Radar, and every sensor
+\* its own noise covariance: the second set is four sensors of ONE type with different R, the
+\* fourth also with different dimensions
+KindSetsQuick    == {<<"azel", "radar", "rngaz", "elrr">>, <<"azel", "elaz", "azel", "elaz">>}
+KindSetsThorough == KindSetsQuick \cup {<<"radar", "az", "rng", "elaz">>, <<"azel", "az", "elaz", "azel">>,
+                                        <<"azel", "azel", "radar", "radar">>, <<"rngaz", "elaz", "azel", "rng">>,
+                                        <<"az", "az", "elrr", "radar">>, <<"radar", "elrr", "rngaz", "radar">>}
 \* <<tick, sub>>: 0 = the 0/360 seam of [0,N); 12 = the +-180 seam of (-N/2,N/2]; 5, 17 off both
 PlacementsQuick    == {<< <<0, 0>>, <<12, 0>>, <<0, -1>>, <<12, 1>> >>,
                        << <<0, 1>>, <<5, 0>>, <<12, -1>>, <<0, 0>> >>}
@@ -195,7 +199,7 @@ PlacementsThorough == PlacementsQuick \cup
                        << <<12, 1>>, <<12, -1>>, <<5, 1>>, <<23, 0>> >>,
                        << <<1, 0>>, <<0, -1>>, <<11, 0>>, <<12, 1>> >>}
 \* medium sets: every state of the thorough replay configuration is run through the real filter
-KindSetsMid   == KindSetsQuick \cup {<<"azel", "azel", "radar", "radar">>}
+KindSetsMid   == KindSetsQuick \cup {<<"radar", "az", "rng", "elaz">>, <<"azel", "az", "elaz", "azel">>}
 PlacementsMid == PlacementsQuick \cup
                  {<< <<12, 0>>, <<12, 0>>, <<0, 0>>, <<0, 0>> >>,
                   << <<17, 0>>, <<0, -1>>, <<0, 1>>, <<12, 0>> >>}
